@@ -687,3 +687,69 @@ func ConstIntValue(v ssa.Value) (int64, bool) {
 	}
 	return constant.Int64Val(c.Value)
 }
+
+// CorrelatedCuts: when the sink is dominated by one outcome of `if V`, every other `if V` on the
+// same SSA value V must take the same outcome on any path to the sink (an SSA value is immutable):
+// returns the edges that contradict it. NOT/negation of V is normalised.
+func CorrelatedCuts(fn *ssa.Function, sink ssa.Instruction) map[Edge]bool {
+	out := map[Edge]bool{}
+	type iff struct {
+		b   *ssa.BasicBlock
+		v   ssa.Value
+		neg bool
+	}
+	var ifs []iff
+	for _, b := range fn.Blocks {
+		if len(b.Instrs) == 0 {
+			continue
+		}
+		ifi, ok := b.Instrs[len(b.Instrs)-1].(*ssa.If)
+		if !ok {
+			continue
+		}
+		v, neg := ifi.Cond, false
+		for {
+			if u, ok := v.(*ssa.UnOp); ok && u.Op == token.NOT {
+				v, neg = u.X, !neg
+				continue
+			}
+			break
+		}
+		ifs = append(ifs, iff{b, v, neg})
+	}
+	sb := sink.Block()
+	for _, a := range ifs {
+		// which outcome of a dominates the sink?
+		for idx := 0; idx < 2; idx++ {
+			s := a.b.Succs[idx]
+			if len(s.Preds) != 1 || !s.Dominates(sb) {
+				continue
+			}
+			// value of V on this edge: true-edge (idx 0) means cond true => V == !neg
+			val := (idx == 0) != a.neg
+			for _, o := range ifs {
+				if o.b == a.b || o.v != a.v {
+					continue
+				}
+				// edge of o on which V == val is allowed; the other is cut
+				allowedIdx := 0
+				if val == o.neg {
+					allowedIdx = 1
+				}
+				out[Edge{o.b, 1 - allowedIdx}] = true
+			}
+		}
+	}
+	return out
+}
+
+// GuardedByCorr is GuardedBy that also prunes paths contradicting the boolean values implied by
+// the branches dominating the sink.
+func GuardedByCorr(fn *ssa.Function, sink ssa.Instruction, guards ...Guard) (bool, []int) {
+	cut, counts := PassEdges(fn, guards...)
+	for e := range CorrelatedCuts(fn, sink) {
+		cut[e] = true
+	}
+	r := ReachBlocks(fn, nil, cut)
+	return !r[sink.Block()], counts
+}
